@@ -180,7 +180,7 @@ def run_case(case, work, rec):
         sels = [(None, None, "none"), (" ".join(s1), None, "str1"), (None, list(s2), "list2"),
                 (" ".join(s1), " ".join(s2), "str1+str2"), (" ".join(s1) + " nope", " ".join(["nope2"] + s2), "unknown")]
         for v1, v2, sd in sels:
-            out = os.path.join(work, f"out_{rel}_{sd}")
+            out = workload.out_path(work, f"out_{rel}_{sd}", len(sd), rec)
             key = (digest, rel, str(v1), str(v2))
             descr = f"layout relation={rel} first_nonmonotone={nonmono1} vars1={v1!r} vars2={v2!r}"
             k1 = list(n1) if v1 is None else [v for v in v1.split() if v in n1]
